@@ -72,6 +72,10 @@ checks = {
    technique="deterministic simulation with damage enumeration: every truncation length and every byte x {bit flip, 0x00, 0xFF} of every file of a small deterministic node (log and metrics segments) applied between incarnations; a fresh process boots and runs a query suite compared row by row with the undamaged answers",
    text="Damage faults are applied by the driver to the stored files between two incarnations; the real start-up and query code runs on the damaged tree. Per query: every returned row must equal the undamaged row (altered values from a checksummed column block are never accepted), rows may be missing only with a reported error and only from queries touching the damaged file, no crash, no hang. Thorough enumerates the space until the time budget; exhaustive is claimed only when everything was run.",
    note=TRUST + " One damage at a time; the query suite is fixed (9 queries). Many robustness defects of unchecksummed metadata files are recorded as known findings; altered values from .csg blocks are not among them and fail the check."),
+ "C12": dict(level="exploration", ref="DESIGN.md §4 C12",
+   technique="deterministic simulation on the fake clock: seeded span forests exported over OTLP/HTTP protobuf to the real ingest route in seeded order and batching across two windows of the node's own 5-minute RED job, optional kill/graceful restart; trace list (all pages), trace count, span trees, dependency matrix and RED rows compared with an independent computation over the forest",
+   text="The views depend on history (order and batching of the export requests, flushed vs unflushed data, which process wrote the spans) and on the clock (the RED job computes its rows from what arrived in the last five simulated minutes); both are driven by the simulator. Each arrived span must be covered by exactly one RED run; every well-formed trace must be listed once with the root's service/operation and exact span and error counts; a span tree must contain every span once beneath its parent also for traces larger than the 1000-span page; the dependency matrix must count exactly the cross-service parent/child pairs also beyond one result page; malformed traces (missing parent, two roots, cycle, duplicate span) may be refused or partial but must not crash, hang, show foreign spans or take other traces' answers down.",
+   note=TRUST + " The hourly DependencyGraphThread and the aggregated /dependencies route are not reached (the on-demand generate-dep-graph route is). Jaeger routes are not driven. Root start/end times are compared to 1 us (they pass through float64). Span times lie within 3 s of the export instant."),
  "C20": dict(level="exploration", ref="DESIGN.md §4 C20",
    technique="deterministic simulation on the fake clock with restarts and a seeded scheduler: (A) the node's own alert cron jobs evaluate generated log alerts over seeded per-minute event batches with seeded webhook delivery failures; history, state and recorded deliveries compared with the N-window state machine over a reference aggregate evaluator; (B) seeded create/update/rename/move/delete/list histories with kill and graceful restarts, interleaved organisations and concurrent clients against the real handlers of dashboards, folders, saved queries, index aliases, lookup files, contact points and alerts, compared operation by operation with a keyed-store reference model",
    text="A: simulated minutes cost milliseconds, so 5-21 minute alert histories (1-3 concurrent alerts, 8 query shapes, 5 conditions, interval 1-3 min, window N x interval) run against the real gocron scheduler, sqlite store, query engine and notification handler; every history row must follow Firing iff all of the last N outcomes held / Pending iff the latest but not all / Normal otherwise; evaluations once per interval (also after a restart); notifications exactly one per Firing evaluation (cool-down is 0 in this store), one on return to Normal after a delivered Firing. B: 15-120 operation histories over a per-run subset of seven stores and 1-3 organisations, with repeated and unusual names, stale and foreign ids, restarts (killed or graceful) at seeded positions followed by a full read-back, and a phase of 2-4 concurrent clients owning disjoint objects under seeded pre-emption; an operation is applied to the model iff the node acknowledged it, valid operations must be acknowledged and invalid ones refused, every read/list must equal the model, foreign organisations must not be able to change an object.",
